@@ -620,7 +620,21 @@ func (e *Engine) exec(st *State, fr *Frame, in ssa.Instruction) {
 		if p.Obj == 0 {
 			e.goPanic(st, "runtime error: invalid memory address or nil pointer dereference")
 		}
-		st.Store(p, e.val(st, fr, x.Val))
+		v := e.val(st, fr, x.Val)
+		// a store through a symbolic index is a per-cell ite, which needs
+		// mergeable cells; otherwise fork over the index values
+		for hasSym(p.Path) && !guardable(v) {
+			np := PtrV{Obj: p.Obj, Path: append([]PathElem(nil), p.Path...)}
+			for i, pe := range np.Path {
+				if pe.Sym != nil {
+					c := e.concretize(st, pe.Sym, "store index into non-mergeable cells")
+					np.Path[i] = PathElem{I: int(c)}
+					break
+				}
+			}
+			p = np
+		}
+		st.Store(p, v)
 	case *ssa.TypeAssert:
 		e.execTypeAssert(st, fr, x)
 	case *ssa.SliceToArrayPointer:
@@ -992,6 +1006,29 @@ func allowInit(path string) bool {
 		return true
 	}
 	if strings.HasPrefix(path, "github.com/fluhus/gostuff") {
+		return true
+	}
+	return false
+}
+
+// guardable reports whether ite(c, v, old) can be formed for v.
+func guardable(v Value) bool {
+	switch x := v.(type) {
+	case *Term, FloatV:
+		return true
+	case *StructV:
+		for _, f := range x.F {
+			if !guardable(f) {
+				return false
+			}
+		}
+		return true
+	case *ArrayV:
+		for _, f := range x.E {
+			if !guardable(f) {
+				return false
+			}
+		}
 		return true
 	}
 	return false
